@@ -52,10 +52,18 @@ var c07Corpus = []string{
 
 
 type c07 struct {
-	natural map[int]int
+	natural  map[int]int
+	longRuns int // length of the long variant of a long history
 }
 
-func newC07() Prop { return &c07{natural: map[int]int{}} }
+func newC07() Prop { return &c07{natural: map[int]int{}, longRuns: 400} }
+
+// SetTier: the long histories of the thorough tier are longer.
+func (p *c07) SetTier(t string) {
+	if t == "thorough" {
+		p.longRuns = 2500
+	}
+}
 
 func init() { propFactories["C07"] = newC07 }
 
@@ -186,6 +194,8 @@ func (p *c07) Enumerate(tier string) [][]int32 {
 		for oi := 1; oi < len(c07Objs); oi += 2 {
 			out = append(out, []int32{2, int32(si), int32(oi), int32(si % 2)})
 		}
+		// … and one of several hundred runs per script
+		out = append(out, []int32{2, int32(si), int32(1 + si%3), int32((si + 1) % 2), 1})
 	}
 	return out
 }
@@ -324,7 +334,13 @@ func (p *c07) Run(c *verifsim.Chooser, st *Stats, render bool) *Outcome {
 		opt = c.Intn(2) == 0
 		text = c07Corpus[si]
 		globals, scoped = analyseNames(text)
-		for i := 0; i < 60; i++ {
+		// (one history in six is several hundred runs long: limits that are
+		// reached only after a hundred leaks, caches with a capacity)
+		hlen := 60
+		if c.Intn(6) == 1 {
+			hlen = p.longRuns
+		}
+		for i := 0; i < hlen; i++ {
 			obj := c07Objs[(oi+i%2)%len(c07Objs)]
 			r := &c07Run{Obj: obj, ObjDesc: fmt.Sprintf("%+v", obj), UseRun: i%9 == 4}
 			switch {
@@ -335,7 +351,7 @@ func (p *c07) Run(c *verifsim.Chooser, st *Stats, render bool) *Outcome {
 			case i%11 == 8:
 				r.Fault, r.K = "cancel-in-host", i%2
 			}
-			if i >= 57 {
+			if i >= hlen-3 {
 				r.Fault = ""
 			}
 			runs = append(runs, r)
